@@ -64,6 +64,20 @@ func genC07(g *Gen, tier string, idx int) *wire.Scenario {
 			sc.Script[len(sc.Script)-1].Cmd = "history-walk"
 		}
 	}
+	if !vi && len(env.History[0].Entries) > 1 && g.P(18) {
+		// a jump over several entries, then down onto entries never shown before, and a first edit there
+		add(Pick(g, []string{"beginning-of-history", "beginning-of-history", "end-of-history"}))
+		sc.Script[len(sc.Script)-1].Cmd = "history-jump:" + sc.Script[len(sc.Script)-1].Cmd
+		for i := 0; i < g.Range(1, 2); i++ {
+			add("next-history")
+			sc.Script[len(sc.Script)-1].Cmd = "history-walk"
+		}
+		if g.P(60) {
+			for i := 0; i < g.Range(1, 2); i++ {
+				sc.Script = append(sc.Script, tok(string(Pick(g, []rune("abc de"))), "self-insert"))
+			}
+		}
+	}
 	if vi {
 		km = "vi-insert"
 		inInsert := true
@@ -234,6 +248,17 @@ func execC07(x *Ctx, sc *wire.Scenario) *wire.Result {
 			continue
 		}
 		cmd := t.Cmd
+		if strings.HasPrefix(cmd, "history-jump:") {
+			if n > 0 {
+				if strings.HasSuffix(cmd, "beginning-of-history") {
+					ident = n // one above the oldest: the walk below steps down to it
+				} else {
+					ident = 0
+				}
+				t.B = wire.Bytes("") // "down"
+			}
+			cmd = "history-walk"
+		}
 		switch cmd {
 		case "history-walk":
 			walked = true
